@@ -91,4 +91,71 @@ def energyRows? (m : CppM) (x : List Rat) : List Nat → Rat → Option Rat
 /-- `energy(sample_start)`; precondition: the sample is `num_variables()` long -/
 def energy? (m : CppM) (x : List Rat) : Option Rat := energyRows? m x (List.range m.q.lin.length) m.q.off
 
+/-! ### more of the header with checked indexing -/
+
+/-- `vec.erase(vec.begin() + i)` -/
+def erase? {α} (l : List α) (i : Nat) : Option (List α) := if i < l.length then some (eraseIdx l i) else none
+
+/-- `remove_variable(v)`: the two (QM: five) `erase(begin + v)`; the clean-up of the neighbourhoods works on iterators -/
+def removeAt? (m : CppM) (v : Nat) : Option CppM := do
+  let lin ← erase? m.q.lin v
+  let adj ← erase? m.q.adj v
+  match m.bvt with
+  | some _ => pure { m with q := { m.q with lin := lin, adj := adj.map (nbhShift v) } }
+  | none => do
+    let vt ← erase? m.q.vt v
+    let lb ← erase? m.q.lb v
+    let ub ← erase? m.q.ub v
+    pure { m with q := { m.q with vt := vt, lb := lb, ub := ub, lin := lin, adj := adj.map (nbhShift v) } }
+
+/-- `remove_variables(sorted)`: the lookups of the re-indexing scheme — `reindex[v] = -1` for every index given and
+    `reindex[term.v]` for every stored neighbour index; `reindex` has `adj.size()` entries -/
+def reindexLookups? (m : CppM) (vs : List Nat) : Option Unit := do
+  let reindex : List Int := List.replicate m.q.adj.length 0
+  let _ ← vs.mapM fun v => reindex[v]?
+  let _ ← m.q.adj.mapM fun nb => nb.mapM fun p => reindex[p.1]?
+  pure ()
+
+/-- one neighbour of the loop of `substitute_variable`, checked -/
+def substStep? (v : Nat) (mult c : Rat) (acc : Qm) (p : Nat × Rat) : Option Qm :=
+  if p.1 = v then do
+    let lin ← upd? acc.lin v (· + 2 * p.2 * mult * c)
+    let adj ← upd? acc.adj v (fun nb => nb.map fun (e : Nat × Rat) => if e.1 = v then (e.1, e.2 * (mult * mult)) else e)
+    pure { acc with off := acc.off + p.2 * c * c, lin := lin, adj := adj }
+  else do
+    let lin ← upd? acc.lin p.1 (· + p.2 * c)
+    let adj ← upd? acc.adj p.1 (fun nb => nb.map fun (e : Nat × Rat) => if e.1 = v then (e.1, e.2 * mult) else e)
+    let adj ← upd? adj v (fun nb => nb.map fun (e : Nat × Rat) => if e.1 = p.1 then (e.1, e.2 * mult) else e)
+    pure { acc with lin := lin, adj := adj }
+
+/-- `substitute_variable(v, mult, c)`: `linear_biases_[v]`, `(*adj_ptr_)[v]`, then per neighbour `linear_biases_[term.v]`
+    and `asymmetric_quadratic_ref(term.v, v)` -/
+def substituteVariable? (m : CppM) (v : Nat) (mult c : Rat) : Option CppM := do
+  let lv ← m.q.lin[v]?
+  let lin ← upd? m.q.lin v (· * mult)
+  let nb ← m.q.adj[v]?
+  let q ← nb.foldlM (substStep? v mult c) { m.q with off := m.q.off + lv * c, lin := lin }
+  pure { m with q := q }
+
+/-- `substitute_variables(mult, c)`: the lookups `linear_biases_[v]`, `(*adj_ptr_)[v]` for `v < num_variables()` -/
+def substituteAllLookups? (m : CppM) : Option Unit := do
+  let _ ← (List.range m.q.lin.length).mapM fun v => do
+    let _ ← m.q.lin[v]?
+    let _ ← m.q.adj[v]?
+    pure ()
+  pure ()
+
+/-- `add_quadratic_from_dense`, every `add_quadratic` checked -/
+def addDense? (m : CppM) (k : Nat) (d : List Rat) : Option CppM :=
+  (List.range k).foldlM (fun acc u => do
+    let (acc, _) ← acc.quad? u u (d.getD (u * (k + 1)) 0) false
+    ((List.range k).filter (u < ·)).foldlM (fun acc v =>
+      let qb := d.getD (u * k + v) 0 + d.getD (v * k + u) 0
+      if qb ≠ 0 then (acc.quad? u v qb false).map (·.1) else some acc) acc) m
+
+/-- iterator `add_quadratic(rows, cols, biases)`, every `add_quadratic` checked -/
+def addCoo? (m : CppM) (rows cols : List Nat) (vals : List Rat) : Option CppM :=
+  (List.range rows.length).foldlM (fun acc i => (acc.quad? (rows.getD i 0) (cols.getD i 0) (vals.getD i 0) false).map (·.1))
+    (m.cooBase rows cols)
+
 end CppM
